@@ -64,6 +64,7 @@ class Params:
         self.empty_blocks = 0.1
         self.const_bias = 0.0       # bias toward constant sub-expressions
         self.nonascii = False       # non-ASCII characters in string literals
+        self.error_rate = 0.15      # how often error-prone shapes are kept
         for k, v in kw.items():
             if k == 'features':
                 self.features.update(v)
@@ -299,6 +300,8 @@ class Gen:
     def index_expr(self, lo, hi):
         """A subscript expression for a dimension lo..hi; mostly in range."""
         r = self.i(0, 9)
+        if r >= 8 and not self.chance(self.p.error_rate):
+            r = 0
         if r <= 5:
             return self.int_const_expr(self.i(lo, hi))
         if r <= 7:
@@ -476,12 +479,12 @@ class Gen:
 
     def nonzero(self, e):
         """Mostly make a divisor non-zero (division by zero stays possible)."""
-        if self.chance(0.85):
+        if not self.chance(0.15 * self.p.error_rate):
             if isinstance(e, A.Num) and e.v == 0:
                 return A.Num(e.t, 1 if e.t in '%&' else 1.0,
                              {'%': '1', '&': '1&', '!': '1!',
                               '#': '1#'}[e.t])
-            if not isinstance(e, A.Num) and self.chance(0.7):
+            if not isinstance(e, A.Num):
                 one = A.Num(e.t, 1 if e.t in '%&' else 1.0,
                             {'%': '1', '&': '1&', '!': '1!', '#': '1#'}[e.t])
                 sq = A.Bin('*', A.Paren(e) if not self.is_atom(e) else e,
@@ -513,8 +516,10 @@ class Gen:
 
     def mklit(self, t, v):
         if t == '%':
+            v = int(v)
             return A.Num('%', v, str(v))
         if t == '&':
+            v = int(v)
             return A.Num('&', v, str(v) + '&' if v <= 32767 else str(v))
         if t == '!':
             v = f32(v)
@@ -645,7 +650,7 @@ class Gen:
             if fn == 'STR$':
                 return A.BCall(fn, [self.num_expr(depth - 1)], '$')
             if fn == 'CHR$':
-                if self.chance(0.85):
+                if not self.chance(self.p.error_rate):
                     return A.BCall(fn, [self.int_const_expr(
                         self.i(32, 126))], '$')
                 return A.BCall(fn, [self.num_expr(depth - 1)], '$')
@@ -667,12 +672,12 @@ class Gen:
         return self.str_atom()
 
     def count_expr(self, depth):
-        if self.chance(0.8):
+        if not self.chance(0.2 * self.p.error_rate * 4):
             return self.int_const_expr(self.i(0, 6))
         return self.num_expr(depth)
 
     def pos_expr(self, depth):
-        if self.chance(0.85):
+        if not self.chance(0.15 * self.p.error_rate * 4):
             return self.int_const_expr(self.i(1, 5))
         return self.num_expr(depth)
 
@@ -741,9 +746,10 @@ class Gen:
                 if isinstance(e, A.LV):
                     if e.t != prm.t or self.is_reserved(e):
                         e = A.Paren(e)
-            if isinstance(e, A.ConstRef):
-                # qbee type-checks a bare CONST argument as a by-reference
-                # variable; keep to the form both readings accept
+            if isinstance(e, (A.ConstRef, A.FCall)) and e.t != prm.t:
+                # qbee type-checks a bare CONST / function-call argument as
+                # a by-reference variable (exact type match); keep to the
+                # form both readings accept
                 e = A.Paren(e)
             args.append(e)
         return args
@@ -894,6 +900,14 @@ class Gen:
         return self.print_stmt()
 
     def if_line(self, depth):
+        saved_straight = self.straight
+        self.straight = False
+        try:
+            return self._if_line(depth)
+        finally:
+            self.straight = saved_straight
+
+    def _if_line(self, depth):
         then = [self.simple_for_ifline() for _ in range(self.i(1, 2))]
         els = None
         if self.chance(0.5):
@@ -1337,9 +1351,19 @@ class Gen:
                 return A.ConstRef(n, t)
             return self.lit(t, small=not self.chance(self.p.edgy))
         op = self.pick(['+', '-', '*'])
-        l = self.const_expr(depth - 1, t)
-        r = self.const_expr(depth - 1, t)
+        # small operands: a CONST that overflows is a compile-time error in
+        # QBASIC, i.e. not a valid program
+        l = self.lit(t) if self.chance(0.5) else self.const_ref_or_lit(t)
+        r = self.lit(t)
         return A.Bin(op, l, r, t)
+
+    def const_ref_or_lit(self, t):
+        cs = [(n, c) for n, c in self.visible_consts().items()
+              if c[0] == t and isinstance(c[1], A.Num)]
+        if cs:
+            n, c = self.pick(cs)
+            return A.ConstRef(n, t)
+        return self.lit(t)
 
     # ---------------------------------------------------------- procedures
     def make_types(self):
